@@ -181,8 +181,26 @@ def cmd_check(prop, tier, only=None, verbose=True, match=None):
         for i in range(0, len(order), batch):
             jobs.append({"module": modname, "hid": h.hid, "shards": order[i:i + batch], "tier": tier,
                          "timeout": 60, "path_timeout": 30, "max_samples": 2})
-    # longest first
-    jobs.sort(key=lambda j: -sum(float(s.get("_timeout", 60)) for s in j["shards"]))
+    # longest first: by the cost measured in the last full run of this tier on the unchanged tree (costs/<id>.json,
+    # committed; purely a scheduling hint), else by budget
+    costs = {}
+    try:
+        with open(os.path.join(HERE, "costs", "%s-%s.json" % (prop, tier))) as f:
+            costs = json.load(f)
+    except Exception:
+        costs = {}
+
+    def shard_key(hid, sh):
+        return hid + " " + json.dumps({k: v for k, v in sh.items() if not k.startswith("_")}, sort_keys=True)
+
+    def job_cost(j):
+        tot = 0.0
+        for sh in j["shards"]:
+            c = costs.get(shard_key(j["hid"], sh))
+            tot += float(c) if c is not None else float(sh.get("_timeout", 60)) / 4.0
+        return tot
+
+    jobs.sort(key=lambda j: -job_cost(j))
     log("%s %s: %d harnesses, %d shards, %d worker jobs on %d cores" % (
         prop, tier, len(harnesses), sum(len(j["shards"]) for j in jobs), len(jobs), NCPU))
     results = run_pool(jobs, workdir, tier, log)
@@ -371,6 +389,17 @@ def cmd_check(prop, tier, only=None, verbose=True, match=None):
         "wall_s": round(wall, 1),
         "violations": violations,
     }
+    if REPO == "/repo" and only is None and match is None and exit_code == 0:
+        try:
+            os.makedirs(os.path.join(HERE, "costs"), exist_ok=True)
+            newc = {}
+            for job, res in zip(jobs, results):
+                for r in res:
+                    newc[shard_key(job["hid"], r["shard"])] = round(float(r.get("cpu_s", 0)) + 3.0, 1)
+            with open(os.path.join(HERE, "costs", "%s-%s.json" % (prop, tier)), "w") as f:
+                json.dump(newc, f, indent=0, sort_keys=True)
+        except Exception:
+            pass
     evdir = os.path.join(HERE, "evidence") if REPO == "/repo" else os.path.join(HERE, ".work", "evidence-alt")
     os.makedirs(evdir, exist_ok=True)
     with open(os.path.join(evdir, prop + ".json"), "w") as f:
